@@ -3,6 +3,8 @@ package pshake
 import (
 	"fmt"
 	"strconv"
+	"sync"
+	"sync/atomic"
 
 	utils "github.com/alibaba/RedisShake/redis-shake/common"
 	conf "github.com/alibaba/RedisShake/redis-shake/configure"
@@ -10,6 +12,7 @@ import (
 	"github.com/alibaba/RedisShake/redis-shake/filter"
 	rgc "github.com/vinllen/redis-go-cluster"
 
+	"verif/harness/lib/prng"
 	"verif/harness/lib/refcrc"
 	"verif/harness/lib/wk"
 )
@@ -117,6 +120,41 @@ func c15(c *wk.Ctx) {
 			k = append([]byte("héé\xff\xfe世"), k...)
 		}
 		check(k, "rand")
+	}
+	// (b2) the slot of a key does not depend on who else is asking: 8 goroutines at the same time
+	{
+		var wg sync.WaitGroup
+		var mu sync.Mutex
+		first := ""
+		var calls int64
+		for w := 0; w < 8; w++ {
+			wg.Add(1)
+			wr := c.Rng.Split(uint64(0xC15000 + w))
+			go func(wr *prng.R) {
+				defer wg.Done()
+				for i := 0; i < c.N(5000, 100000); i++ {
+					k := wr.Bytes(wr.Range(0, 40))
+					if len(k) > 4 && wr.Bool() {
+						k[wr.Intn(len(k))], k[wr.Intn(len(k))] = '{', '}'
+					}
+					if g, w := int(utils.KeyToSlot(string(k))), refcrc.Slot(k); g != w {
+						mu.Lock()
+						if first == "" {
+							first = fmt.Sprintf("KeyToSlot(%q)=%d while 8 goroutines were hashing, Cluster specification gives %d", k, g, w)
+						}
+						mu.Unlock()
+						return
+					}
+					atomic.AddInt64(&calls, 1)
+				}
+			}(wr)
+		}
+		wg.Wait()
+		r.Case("keytoslot|concurrent")
+		r.Count("concurrent_keytoslot_calls", calls)
+		if first != "" {
+			r.Violationf("C15|keytoslot|outcome=other-slot-under-concurrent-use", nil, "%s", first)
+		}
 	}
 	// CRC16 copies
 	bad := 0
